@@ -87,6 +87,23 @@ Theorem cut_root_is_drop_rule : forall (m : frame -> bool) (fs : list frame),
 Proof. intros m fs. exact (cut_root_drop_rule m fs). Qed.
 Print Assumptions cut_root_is_drop_rule.
 
+(* histories: any sequence of Prune / PruneFrom / RemoveUninteresting applied to the SAME profile (the
+   command-line path: fetchProfiles applies drop_frames, generateReport applies prune_from to the object
+   it was handed) leaves exactly what the COMPOSITION of the frame rules leaves -- each rule read on the
+   frames the previous one left, with nothing else carried over from earlier operations.  The finding
+   classes F14 / F15 are read on the profile each step receives. *)
+Theorem history_meets_spec : forall M V p sts,
+  wf_profile p = true -> steps_classes M V p sts = [] ->
+  fsamples (run_steps M V p sts) = spec_steps M V p sts (fsamples p).
+Proof. exact history_meets_spec_l. Qed.
+Print Assumptions history_meets_spec.
+
+(* every operation hands a valid profile to the next one *)
+Theorem history_preserves_validity : forall M V p st,
+  wf_profile p = true -> wf_profile (run_step M V p st) = true.
+Proof. exact run_step_wf. Qed.
+Print Assumptions history_preserves_validity.
+
 (* ---------------------------------------------------------------- witnesses *)
 Definition Meq (rx s : string) : bool := String.eqb rx s.
 Definition mkf (id : Z) (n : string) : function :=
@@ -126,4 +143,21 @@ Example prune_hyps_satisfiable :
   wf_profile wok = true /\ in_F14 Meq wok "m1" None = false /\ in_F15 Meq wok "m1" = false
   /\ fsamples_eqb (fsamples (prune Meq wok "m1" None)) (fsamples wok) = false
   /\ fsamples_eqb (fsamples (prune_from Meq wok "m1")) (fsamples wok) = false.
+Proof. vm_compute. auto. Qed.
+
+(* a history whose hypotheses hold: drop_frames "^(rt)$" matches only the ROOT frame, which therefore
+   survives; a prune_from that matches nothing must then leave both samples whole, and one that
+   matches f1 must cut only the first *)
+Definition wroot :=
+  let p := mkp [mkf 1 "f1"; mkf 2 "f2"; mkf 3 "rt"] [mkl 1 [1]; mkl 2 [2]; mkl 3 [3]] [mks [1; 2; 3]; mks [2; 3]] in
+  {| p_sampletype := p_sampletype p; p_defaultsampletype := ""; p_sample := p_sample p; p_mapping := [];
+     p_location := p_location p; p_function := p_function p; p_comments := []; p_docurl := "";
+     p_dropframes := "rt"; p_keepframes := ""; p_timenanos := 0; p_durationnanos := 0;
+     p_periodtype := None; p_period := 0 |}.
+Definition Manch (rx s : string) : bool := String.eqb rx s || String.eqb rx ("^(" ++ s ++ ")$").
+Example history_hyps_satisfiable :
+  wf_profile wroot = true
+  /\ steps_classes Manch (fun _ => true) wroot [SRemoveUn; SPruneFrom "nomatch"; SPrune "f1" None; SPruneFrom "f2"] = []
+  /\ fsamples_eqb (fsamples (run_steps Manch (fun _ => true) wroot [SRemoveUn; SPruneFrom "nomatch"])) (fsamples wroot) = true
+  /\ fsamples_eqb (fsamples (run_steps Manch (fun _ => true) wroot [SRemoveUn; SPruneFrom "f2"])) (fsamples wroot) = false.
 Proof. vm_compute. auto. Qed.
